@@ -19,7 +19,7 @@ VARIABLES s, call
 vars == <<s, call>>
 
 \* a B space newline e-acute grinning-face < & % ' + "
-AlphaWide == { <<97>>, <<66>>, <<32>>, <<10>>, <<195, 169>>, <<240, 159, 152, 128>>, <<60>>, <<38>>, <<37>>, <<39>>, <<43>>, <<34>> }
+AlphaWide == { <<97>>, <<66>>, <<32>>, <<10>>, <<195, 169>>, <<240, 159, 152, 128>>, <<60>>, <<62>>, <<38>>, <<37>>, <<39>>, <<43>>, <<34>> }
 AlphaCore == { <<97>>, <<66>>, <<32>>, <<195, 169>>, <<60>>, <<38>> }
 Alpha == IF Wide THEN AlphaWide ELSE AlphaCore
 
@@ -28,7 +28,7 @@ StrsOfLen(n) == IF n = 0 THEN {<<>>} ELSE {c \o t : c \in Alpha, t \in StrsOfLen
 Strs == UNION {StrsOfLen(n) : n \in 0..N}
 
 ArgStrs == { <<>>, <<97>>, <<32>>, <<66, 97>>, <<195, 169>>, <<38>>, <<97, 97>> }
-NoArg == {"upcase", "downcase", "capitalize", "strip", "lstrip", "rstrip", "strip_newlines", "newline_to_br",
+NoArg == {"upcase", "downcase", "capitalize", "strip", "lstrip", "rstrip", "strip_newlines", "newline_to_br", "strip_html",
           "escape", "escape_once", "url_encode", "url_decode", "size"}
 \* chains of two argument-less filters (the second sees the output of the first: escape then escape_once, ...)
 Chains == [name : NoArg \ {"size"}, args : {<<>>}, then : NoArg]
@@ -56,11 +56,14 @@ Utf8Preserved == (Single /\ Dec /\ R.v.k = "str" /\ ValidUtf8(s) /\ call.name # 
 NeverLengthens == (Single /\ Dec /\ call.name \in {"slice", "truncate", "strip", "lstrip", "rstrip", "remove", "remove_first"})
                   => CharCount(R.v.v) <= CharCount(s)
 FitsUnchanged == (Single /\ Dec /\ call.name = "truncate" /\ CharCount(s) <= call.args[1].v) => R.v.v = s
-FitsUnchangedWords == (Single /\ Dec /\ call.name = "truncatewords" /\ s # <<>> /\ Len(SplitOn(s, <<32>>)) <= call.args[1].v) => R.v.v = s
+FitsUnchangedWords == (Single /\ Dec /\ call.name = "truncatewords" /\ WordCount(s) <= call.args[1].v) => R.v.v = s
 EscapeLeavesNoSpecials == (Single /\ Dec /\ call.name \in {"escape", "escape_once"}) => ~HasRawSpecial(R.v.v)
 EscapedIsFixedPoint == (Dec /\ call.name = "escape" /\ "then" \in DOMAIN call /\ call.then = "escape_once") => R = R1
 EscapeOnceIdempotent == (Dec /\ call.name = "escape_once" /\ "then" \notin DOMAIN call) =>
                           LET again == App("escape_once", R.v.v, <<>>) IN again.r = "val" => (IsUnspec(again.v) \/ again.v.v = R.v.v)
+StripHtmlLaw == (Single /\ call.name = "strip_html" /\ Dec) =>
+                  /\ Len(R.v.v) <= Len(s) /\ App("strip_html", R.v.v, <<>>) = R
+                  /\ (\A i \in 1..Len(s) : s[i] \notin {60, 62}) => R.v.v = s
 UrlRoundTrip == (Single /\ call.name = "url_encode" /\ Dec) => App("url_decode", R.v.v, <<>>) = FVal(Str(s))
 StripIsBoth == (Single /\ call.name = "strip" /\ Dec) => R.v.v = LStrip(RStrip(s)) /\ R.v.v = RStrip(LStrip(s))
 CaseLaws == (Single /\ call.name = "upcase" /\ Dec) =>
